@@ -2,6 +2,7 @@
 // It is not the verification: it (a) searches a concrete failing input when a Verus
 // obligation fails, (b) re-runs a recorded input, (c) cross-checks the assumed
 // contracts of the N7 wrappers (format!, strip_prefix, from_utf8) on concrete inputs.
+mod aot;
 use dora_symbol::{demangle_name, mangle_name, mangle_name_with_max_len};
 use std::time::{Duration, Instant};
 
@@ -69,6 +70,21 @@ fn check_one(name: &str) -> Option<String> {
         Ok(other) => return Some(format!("demangle_name(mangle_name(x)) = {:?}, expected Some(x)", other)),
         Err(_) => return Some("demangle_name panicked on a mangled name".into()),
     }
+    // the real call-site code of dora-compiler (aot_symbol_name and what it names, cut verbatim)
+    match std::panic::catch_unwind(|| aot::vx_aot_symbol_name(name)) {
+        Ok(s) => {
+            if s.len() > aot::VX_AOT_MAX {
+                return Some(format!("aot_symbol_name gives a symbol of length {} > AOT_SYMBOL_MAX_LEN {}", s.len(), aot::VX_AOT_MAX));
+            }
+            if !sym_ok(&s) {
+                return Some(format!("aot_symbol_name gives {:?} with a character outside [A-Za-z0-9_]", s));
+            }
+            if aot::vx_aot_symbol_name(name) != s {
+                return Some("aot_symbol_name is not deterministic".into());
+            }
+        }
+        Err(_) => return Some("aot_symbol_name panicked".into()),
+    }
     for &ml in MAX_LENS.iter() {
         let s = match std::panic::catch_unwind(|| mangle_name_with_max_len(name, ml)) {
             Ok(s) => s,
@@ -100,6 +116,9 @@ fn check_pair(a: &str, b: &str) -> Option<String> {
     }
     if mangle_name(a) == mangle_name(b) {
         return Some(format!("distinct names collide: mangle_name = {:?}", mangle_name(a)));
+    }
+    if aot::vx_aot_symbol_name(a) == aot::vx_aot_symbol_name(b) {
+        return Some(format!("distinct names get the same aot_symbol_name {:?}", aot::vx_aot_symbol_name(a)));
     }
     for &ml in MAX_LENS.iter() {
         if ml < 39 {
@@ -235,6 +254,9 @@ fn main() {
                 1 => base.push(al[rng.below(al.len())]),
                 _ => base.push((b'a' + rng.below(26) as u8) as char),
             }
+        }
+        if rng.below(3) == 0 {
+            base.push_str("$runtime_entry");
         }
         let mut other = base.clone();
         match rng.below(4) {
